@@ -103,6 +103,12 @@ CLAIMS.update({
          "R20c the VRL lexer's identifier alphabet is a subset of the parser's. Alphabet agreement only.", "§4 C20"),
 })
 
+CLAIMS.update({
+ "C02": ("F-MAP classification of always-infallible functions + P-VAR reachability of message-error constructions under the declared parameter kinds; flag-pairing dominance",
+         "R02a: a function that is always typed infallible has no reachable message-error construction in resolve (4 genuine findings recorded); "
+         "R02c: abortable/fallible program flags are set where their cause is compiled. Not the compiler's whole fallibility calculus.", "§4 C02"),
+})
+
 NA = {}
 
 def main():
